@@ -15,8 +15,9 @@ def run(tier):
     c.coverage["distinct_nontrivial"] = len(beh)
     c.coverage["rule"] = ("3 polygons (two rectangles, one with corners on the axes, and a pentagon) x every subset of listed corners x 0-2 listed "
                           "interior points x {nodal values on one affine function, values bumped off it} x {corners first, interior points first} x a second "
-                          "point-less entry {absent, at the end (quick), also between the groups (thorough)} x area type x {max, min, both}; the "
+                          "point-less entry {absent, at the end (quick), also between the groups (thorough)} x area type x {max, min, both}; on the second polygon also as the min / max depth of the feature's composition or "
+                          "temperature model, and in spherical worlds (lattice unit 1 degree; corner probes are left out there); the "
                           "depth used is observed 1 m above and 1 m below the predicted depth at every nodal point, at every half-lattice point "
                           "inside (affine: the exact affine value; otherwise the min / max nodal bounds). non-trivial: all configurations")
-    c.assumptions += ["Cartesian integer-metre coordinates; spherical surfaces are exercised through C08 (longitude shifts) and C13"]
+    c.assumptions += ["Cartesian integer-metre coordinates are exact; on the sphere polygon corners are boundary points only up to rounding and are not probed"]
     return c.finish()
